@@ -1963,3 +1963,40 @@ func (w *World) topOfCallThrough(in ssa.Instruction, root *ssa.Function) ssa.Ins
 	}
 	return nil
 }
+
+// reachableHelpers: fn, its function literals and every unexported function of the same
+// package it statically calls (transitively, whatever the number of call sites): the code
+// that runs as part of fn and is private to its package.
+func (w *World) reachableHelpers(fn *ssa.Function) []*ssa.Function {
+	var out []*ssa.Function
+	seen := map[*ssa.Function]bool{}
+	var visit func(f *ssa.Function, d int)
+	visit = func(f *ssa.Function, d int) {
+		if seen[f] || d > 4 {
+			return
+		}
+		seen[f] = true
+		out = append(out, f)
+		for _, a := range f.AnonFuncs {
+			visit(a, d)
+		}
+		w.eachInstr(f, func(in ssa.Instruction) {
+			ci, ok := in.(ssa.CallInstruction)
+			if !ok {
+				return
+			}
+			h := ci.Common().StaticCallee()
+			if h == nil || !w.IsMod[h] || len(h.Blocks) == 0 || fnPkgPath(h) != fnPkgPath(fn) {
+				return
+			}
+			if h.Parent() == nil {
+				if obj := h.Object(); obj == nil || obj.Exported() {
+					return
+				}
+			}
+			visit(h, d+1)
+		})
+	}
+	visit(fn, 0)
+	return out
+}
